@@ -51,12 +51,14 @@ OutStream(c) ==
   CASE f.k = "none"   -> Blocks(c, 1, c.n) \o <<[k |-> "eod", n |-> 0]>>
     [] f.k = "read"   -> Blocks(c, 1, f.at - 1) \o <<[k |-> "exc", n |-> 0], [k |-> "eod", n |-> 0]>>
     [] f.k = "dclose" -> Blocks(c, 1, c.n) \o <<[k |-> "exc", n |-> 0], [k |-> "eod", n |-> 0]>>
+    [] f.k = "end"    -> Blocks(c, 1, c.n) \o <<[k |-> "exc", n |-> 0], [k |-> "eod", n |-> 0]>>   \* the input ends too early for its format
     [] f.k = "parse"  -> Blocks(c, 1, f.at - 1) \o <<[k |-> "exc", n |-> 0], [k |-> "eod", n |-> 0]>>
     [] f.k = "work"   -> Blocks(c, 1, f.at - 1) \o <<[k |-> "exc", n |-> 0]>> \o Blocks(c, f.at + 1, c.n)
                            \o <<[k |-> "eod", n |-> 0]>>
 
 HeaderFails(c) == \/ c.fault.k = "read" /\ c.fault.at = 1
                   \/ c.fault.k = "dclose" /\ c.n = 0 /\ ~c.fd
+                  \/ c.fault.k = "end" /\ c.n = 0
                   \/ c.fault.k = "parse" /\ c.fault.at = 1 /\ c.fault.pre
 
 (* blocks whose entity type is not selected come back as empty buffers *)
@@ -154,8 +156,10 @@ SetHdr(v) == SetHdrX(v, FALSE)
 HdrAfter(v) == IF pa.hdr = "unset" THEN v ELSE pa.hdr
 
 (* end of input: the real PBF parser (hdrblk) fails when the input ends before the OSMHeader blob - that only happens
-   when the read thread was stopped before its first read *)
-InputEnd == IF cfg.hdrblk /\ ~cfg.fd /\ pa.n = 0 THEN "fail" ELSE "end"
+   when the read thread was stopped before its first read.  Fault "end": the input is incomplete for its format (an XML
+   document without its closing tags), which the parser can only find out - and must report - when it is told that the
+   input has ended. *)
+InputEnd == IF (cfg.hdrblk /\ ~cfg.fd /\ pa.n = 0) \/ cfg.fault.k = "end" THEN "fail" ELSE "end"
 
 PGet == /\ pa.pc = "get"                                         \* input_done() / queue_wrapper::pop: in_use()?
         /\ pa' = [pa EXCEPT !.pc = IF inQ.inUse THEN "wait" ELSE InputEnd]
@@ -178,7 +182,7 @@ PFdRead == /\ pa.pc = "fdread"
               /\ obs' = [obs EXCEPT !.pLate = @ + (IF ~outQ.inUse THEN 1 ELSE 0)]   \* blob reads begun after the output queue was shut down
               /\ pa' = IF cfg.fault.k = "read" /\ cfg.fault.at = m THEN [pa EXCEPT !.pc = "fail"]
                        ELSE IF m <= cfg.n THEN [pa EXCEPT !.pc = "parse", !.n = m]
-                       ELSE [pa EXCEPT !.pc = "end"]
+                       ELSE [pa EXCEPT !.pc = IF cfg.fault.k = "end" THEN "fail" ELSE "end"]
            /\ UNCHANGED <<cfg, expected, inQ, outQ, futs, done, rt, co, clog>>
 
 PParse == /\ pa.pc = "parse"
